@@ -690,3 +690,52 @@ pub fn plan_for(id: &str, tier: &str) -> Option<Plan> {
     }
     Some(p)
 }
+
+/// C01, count thresholds: one very long chain on SQLite (beyond 10 000 versions; beyond 65 536 in
+/// thorough), re-opened, walked end to end, extended, re-opened and walked again.
+pub fn bulk_chain(n: usize, seed: u64, cov: &mut Cov) -> Option<Found> {
+    let mut subj = Subject::new(Kind { backend: Backend::Sqlite, entry: Entry::Lib, reopen_pct: 0, socket: false }, Config::default()).ok()?;
+    let client = Rng::new(seed).fork(0xB01C).uuid();
+    let other = Rng::new(seed).fork(0xB01D).uuid();
+    let mut chain: Vec<Uuid> = Vec::with_capacity(n + 8);
+    let mut parent = Uuid::nil();
+    let fail = |m: String| Some(Found { property: "C01".into(), signature: format!("C01:bulk {}", m.split_whitespace().take(6).collect::<Vec<_>>().join(" ")), msg: m, replay: json!({"origin": "bulk-chain", "case": 0}) });
+    // a second, short chain that must survive as well
+    let mut op = Uuid::nil();
+    for i in 0..3 {
+        if let Resp::AddOk { vid, .. } = subj.exec(other, &Req::AddVersion { parent: op, data: vec![i as u8; 5] }) {
+            op = vid;
+        }
+    }
+    for round in 0..2 {
+        let target = if round == 0 { n } else { n + 5 };
+        while chain.len() < target {
+            let i = chain.len();
+            match subj.exec(client, &Req::AddVersion { parent, data: (i as u32).to_le_bytes().to_vec() }) {
+                Resp::AddOk { vid, .. } => {
+                    chain.push(vid);
+                    parent = vid;
+                }
+                o => return fail(format!("bulk chain: AddVersion #{i} on the latest version failed: {}", o.short())),
+            }
+        }
+        cov.evaluations += chain.len() as u64;
+        if let Err(e) = subj.reopen() {
+            return fail(format!("bulk chain: reopening a database with {} versions failed: {e:#}", chain.len()));
+        }
+        let mut p = Uuid::nil();
+        for (i, v) in chain.iter().enumerate() {
+            match subj.exec(client, &Req::GetChild { parent: p }) {
+                Resp::Found { vid, data, .. } if vid == *v && data == (i as u32).to_le_bytes() => p = vid,
+                o => return fail(format!("bulk chain of {} versions on sqlite/lib, after reopening: walk step {i} from {p} expected accepted version #{i} ({v}) but got {}", chain.len(), o.short())),
+            }
+        }
+        match subj.exec(client, &Req::GetChild { parent: p }) {
+            Resp::NotFound => {}
+            o => return fail(format!("bulk chain: child of the latest version should be not-found, got {}", o.short())),
+        }
+        cov.evaluations += chain.len() as u64;
+        cov.hit(format!("bulk-chain:{}-versions:reopen#{round}", if chain.len() > 65_536 { ">65536" } else { ">10000" }));
+    }
+    None
+}
